@@ -40,6 +40,12 @@ SPECS = [
          serves=['C19', 'C11']),
     dict(id='S-Strict-rejects', text=BAD, options={'strict': True},
          expect_error={'class': 'ExpressionError', 'token': '???'}, serves=['C19', 'C11']),
+    # every alternative of a pipe is an expression of the template: an invalid one is a compile error
+    # wherever it stands (also behind an alternative that can never fail)
+    dict(id='S-Strict-rejects-pipe-tail', text='A<p tal:content="\'n/a\' | 1 +">x</p>B', options={'strict': True},
+         expect_error={'class': 'ExpressionError', 'token': '1 +'}, serves=['C19', 'C11', 'C04']),
+    dict(id='S-Strict-rejects-pipe-middle', text='A<p tal:content="e1 | None | ??? | 2">x</p>B', options={'strict': True},
+         expect_error={'class': 'ExpressionError', 'token': '???'}, serves=['C19', 'C11', 'C04']),
     dict(id='S-TextMode', text='a ${e1} $$ <b> &amp; x', cls='PageTextTemplate',
          ensures=[
              "evals(1) == 1",
